@@ -144,7 +144,10 @@ def parse_field_values_to_cinfo(field_values: FieldValues) -> version.V2Calendar
     week_v: MaybeInt = int(fvals['week_v']) if 'week_v' in fvals else None
 
     if year_y and doy:
-        date  = version.date_from_doy(year_y, doy)
+        date = version.date_from_doy(year_y, doy)
+        if date.year != year_y:
+            # day 366 of a year that is not a leap year
+            raise version.PatternError(f"Invalid day of year {doy} for year {year_y}")
         month = date.month
         dom   = date.day
     else:
@@ -152,7 +155,11 @@ def parse_field_values_to_cinfo(field_values: FieldValues) -> version.V2Calendar
         dom   = int(fvals['dom'  ]) if 'dom' in fvals else None
 
     if year_y and month and dom:
-        date = dt.date(year_y, month, dom)
+        try:
+            date = dt.date(year_y, month, dom)
+        except ValueError as err:
+            # e.g. February 30th: matches the part patterns but is not a date
+            raise version.PatternError(f"Invalid date {year_y}-{month}-{dom}: {err}")
 
     # Use of defaults is an all or nothing affair.
     # We don't to mix anything from TODAY with stuff
